@@ -14,17 +14,11 @@ import PdshVerif.Opt.Settings
 import PdshVerif.Opt.Spec
 import PdshVerif.Opt.Lemmas
 import PdshVerif.Opt.Accept
+import PdshVerif.Opt.Table
 
 namespace PdshVerif.C18
 open PdshVerif PdshVerif.Opt
 
-/-- command line > environment > built-in default -/
-def pick {α : Type} (cmd env : Option α) (dflt : α) : α := (cmd <|> env).getD dflt
-
-/-- the conversions the code applies: string_to_int for -f and the variables, atoi (or, repaired,
-    string_to_int) for -t / -u; 0 stands for "refused", which cannot occur in an accepted run -/
-def convS (fx : Fixes) (a : Str) : Int := (stringToInt fx a).getD 0
-def convT (fx : Fixes) (a : Str) : Int := (timeoutArg fx a).getD 0
 
 /-! ## what the tokens are -/
 
@@ -111,6 +105,86 @@ theorem precedence {fx : Fixes} {d : Defaults} {p : Pers} {env : Env} {argv : Li
     cases lastArg 'M' etoks <;> cases getenv env "PDSH_MISC_MODULES" <;> simp [optDefault]
   · rw [k7]
     cases lastArg 'e' toks <;> cases p <;> cases getenv env "PDSH_REMOTE_PDCP_PATH" <;> simp [pick, optDefault, Pers.isPcp]
+
+
+/-! ## the settings table generated from opt.c -/
+
+theorem letterOf_fanout : letterOf "fanout" = 'f' := by decide
+theorem letterOf_ctmo : letterOf "connect_timeout" = 't' := by decide
+theorem letterOf_utmo : letterOf "command_timeout" = 'u' := by decide
+theorem letterOf_rcmd : letterOf "rcmd_name" = 'R' := by decide
+theorem letterOf_misc : letterOf "misc_modules" = 'M' := by decide
+theorem letterOf_path : letterOf "remote_program_path" = 'e' := by decide
+
+/-- SETTINGS TABLE, environment side: for EVERY row (variable, opt_t field, conversion) that harness/consts/
+    optable.c reads off opt_env() of the tree under test — not a typed list — an accepted configuration obeys
+    command line > that variable > default, the option letter being the one the generated switch table gives for
+    the field and the environment conversion the one named in the row.  A variable added to opt_env changes the
+    generated table and this theorem stops checking until the model covers it. -/
+theorem env_table_precedence {fx : Fixes} {d : Defaults} {p : Pers} {env : Env} {argv : List Str} {c : Cfg}
+    (h : effective fx d p env argv = .ok c) : ∀ r ∈ Gen.OT_ENVS, EnvRowHolds fx d p env argv c r := by
+  obtain ⟨a1, a2, a3, _, a5, a6, a7⟩ := precedence h
+  have cs : ∀ t, (convByName fx "string_to_int" t).getD 0 = convS fx t := fun t => by simp [convByName, convS]
+  intro r hr
+  simp only [Gen.OT_ENVS, List.mem_cons, List.mem_nil_iff, or_false] at hr
+  rcases hr with rfl | rfl | rfl | rfl | rfl | rfl | rfl
+  · simp only [EnvRowHolds, if_true, letterOf_fanout, cs]; exact a1
+  · simp only [EnvRowHolds, letterOf_ctmo, cs]; simpa using a2
+  · simp only [EnvRowHolds, letterOf_utmo, cs]; simpa using a3
+  · simp only [EnvRowHolds, letterOf_rcmd]; simpa using a5
+  · simp only [EnvRowHolds, letterOf_misc]; simpa using a6
+  · simp [EnvRowHolds]
+  · simp only [EnvRowHolds, letterOf_path]; simpa using a7
+
+/-- SETTINGS TABLE, option side: every `case` of the generated switch table of opt_args is accounted for — the
+    remote user (no variable) obeys command line > default; the fields with a variable are the rows above; what
+    remains sets a flag or touches no field. -/
+theorem opt_table_precedence {fx : Fixes} {d : Defaults} {p : Pers} {env : Env} {argv : List Str} {c : Cfg}
+    (h : effective fx d p env argv = .ok c) : ∀ r ∈ Gen.OT_OPTS, OptRowHolds d p argv c r := by
+  obtain ⟨_, _, _, a4, _, _, _⟩ := precedence h
+  intro r hr
+  by_cases hru : r.2.1 = "ruser"
+  · have : r.1.toList.headD ' ' = 'l' := by
+      revert hru; revert r
+      decide
+    simp only [OptRowHolds, hru, if_true, this]
+    exact a4
+  · have : (Gen.OT_ENVS.any (fun e => e.2.1 = r.2.1)) = true ∨ r.2.2 = "flag" ∨ r.2.2 = "none" := by
+      revert hru; revert r
+      decide
+    simp only [OptRowHolds, hru, if_false]
+    rcases this with h1 | h2
+    · simp [h1]
+    · by_cases h1 : (Gen.OT_ENVS.any (fun e => e.2.1 = r.2.1)) = true
+      · simp [h1]
+      · simp [h1, h2]
+
+/-- NUMERIC SETTINGS, one theorem over the generated tables: every row of the option and environment tables whose
+    opt_t field is an `int` (OT_INT_FIELDS, read off opt.h) converts with string_to_int — no atoi is left — and that
+    conversion (repaired D5) either refuses a text or yields exactly the integer the text denotes, within int
+    range: no truncation, wrap or clamp for ANY numeric option or variable. -/
+theorem numeric_exact_or_refused (fx : Fixes) (hd5 : fx.d5 = true) :
+    ∀ r ∈ Gen.OT_OPTS ++ Gen.OT_ENVS, r.2.1 ∈ Gen.OT_INT_FIELDS →
+      r.2.2 = "string_to_int" ∧
+      ∀ s v, convByName fx r.2.2 s = some v → CInt.denotes s = some v ∧ CInt.INT_MIN ≤ v ∧ v ≤ CInt.INT_MAX := by
+  intro r hr hf
+  have hc : r.2.2 = "string_to_int" := by
+    revert hf; revert r
+    decide
+  refine ⟨hc, ?_⟩
+  intro s v hv
+  rw [hc] at hv
+  simp only [convByName, if_true] at hv
+  exact stringToInt_denotes fx hd5 s v hv
+
+/-- ... and the model's switch applies exactly that conversion to the argument of each of these options
+    (`atoi` repaired, as the generated table says of the code) -/
+theorem numeric_options_use_table_conv (fx : Fixes) (hat : fx.atoi = true) (d : Defaults) (arg : Option Str) :
+    action fx d (.opt (letterOf "fanout") arg) = (convByName fx "string_to_int" (arg.getD [])).elim (.exit 1) .fanout ∧
+    action fx d (.opt (letterOf "connect_timeout") arg) = (convByName fx "string_to_int" (arg.getD [])).elim (.exit 1) .ctmo ∧
+    action fx d (.opt (letterOf "command_timeout") arg) = (convByName fx "string_to_int" (arg.getD [])).elim (.exit 1) .utmo := by
+  rw [letterOf_fanout, letterOf_ctmo, letterOf_utmo, action_f, action_t, action_u]
+  simp [convByName, timeoutArg, hat]
 
 /-! ## independence -/
 
